@@ -314,6 +314,9 @@ func runC08(c *Ctx) {
 		c.Ob("C08-D4", "sio.serverSocket.onConnect/announces-pid", oc.Pos(), len(sts) == 1 && Term(sts[0].(*ssa.Store).Val) == "s.pid", "the CONNECT reply must carry the socket's private session id")
 	}
 
+	c.Rule("C08-D6", "replay of logged packets (shared with C09-D1): the log keeps the caller's header and arguments and the replay re-encodes them, so Encode must not rewrite what it is given — today it replaces Binary leaves by placeholders in place and flips the logged header to BINARY_EVENT, so a binary packet is replayed with its header announcing an attachment that is never sent", 4)
+	encodePurity(c, "C08-D6")
+
 	c.Rule("C08-D5", "client offset bookkeeping: the CONNECT payload presents the stored pid and last offset; the pid is stored from the CONNECT reply and `recovered` set only when it equals the one presented; the values handed to a handler are exactly those decoded for it (no re-slicing between decode and call)", 6)
 	{
 		sc := p.Fn("sio", "clientSocket.sendConnectPacket")
